@@ -90,7 +90,7 @@ def run(ctx, report: Report) -> None:
     report.analysed['fallback_edges'] = sorted(set(map(str, cg.fallback_edges)))[:20]
 
     # ---- R1 ----------------------------------------------------------------------------------------------
-    r1 = report.rule('C16-R1', 'no import-time dereference of a bs4 name that is not bound yet', floor=4)
+    r1 = report.rule('C16-R1', 'no import-time dereference of a bs4 name that is not bound yet', floor=2)
 
     def bs4_aliases(mod):
         """local name -> bs4 module path it denotes ('bs4', 'bs4.element')."""
@@ -194,7 +194,7 @@ def run(ctx, report: Report) -> None:
     report.analysed['import_time_statements'] = total_nodes
 
     # ---- R2 ----------------------------------------------------------------------------------------------
-    r2 = report.rule('C16-R2', 'module-level imports inside the package are acyclic', floor=3)
+    r2 = report.rule('C16-R2', 'module-level imports inside the package are acyclic', floor=1)
     graph = {}
     for mn, mod in src.mods.items():
         deps = set()
@@ -222,21 +222,15 @@ def run(ctx, report: Report) -> None:
             dfs(m, [m])
 
     # ---- R3 ----------------------------------------------------------------------------------------------
-    r3 = report.rule('C16-R3', 'importing has no visible effect', floor=7)
+    r3 = report.rule('C16-R3', 'importing has no visible effect', floor=3)
     effect_calls = {'print', 'warnings.warn', 'warn', 'warn_deprecated', 'util.warn_deprecated', 'sys.stdout.write',
                     'sys.stderr.write', 'logging.warning', 'logging.info', 'logging.basicConfig', 'logging.error',
                     # process-wide state other programs can observe after `import soupsieve`
                     'warnings.filterwarnings', 'warnings.simplefilter', 'warnings.resetwarnings', 'filterwarnings', 'simplefilter',
                     'sys.setrecursionlimit', 'sys.path.insert', 'sys.path.append', 'os.environ.setdefault', 'os.putenv',
                     'locale.setlocale', 'atexit.register', 'signal.signal', 'sys.setswitchinterval', 'gc.disable', 'gc.enable'}
-    import_consts = []
-    pm = src.mod('css_parser')
-    for st in pm.tree.body:
-        for c in ast.walk(st) if not isinstance(st, (ast.FunctionDef, ast.ClassDef)) else []:
-            if isinstance(c, ast.Call) and src.resolve_class_ref(pm, c.func) == 'css_parser.CSSParser' and c.args:
-                v = ctx.consts.folder.try_ev('css_parser', c.args[0], default=None)
-                if isinstance(v, str):
-                    import_consts.append(v)
+    from .sem import selector_constants
+    import_consts = [v['text'] for v in selector_constants(ctx).values()]
     has_contains = [v for v in import_consts if ':contains(' in v.lower()]
 
     def guards(mod, node):
@@ -286,7 +280,7 @@ def run(ctx, report: Report) -> None:
         raise AnalysisError('fewer than 10 import-time selector constants found (anchor vanished)')
 
     # ---- R4 ----------------------------------------------------------------------------------------------
-    r4 = report.rule('C16-R4', 'every name exported by __all__ is bound (star-import works)', floor=8)
+    r4 = report.rule('C16-R4', 'every name exported by __all__ is bound (star-import works)', floor=5)
     for mn, mod in src.mods.items():
         for st in mod.tree.body:
             if not (isinstance(st, (ast.Assign, ast.AnnAssign)) and any(
